@@ -557,10 +557,38 @@ class SymExec:
                 if "&" + spl in path.env:
                     path.env["&" + self.place_of(dest)[0]] = path.env["&" + spl]
                 # tuple copies
+                dpl = self.place_of(dest)[0]
                 for k in list(path.env):
                     if k.startswith(spl + "."):
-                        path.env[self.place_of(dest)[0] + k[len(spl):]] = path.env[k]
+                        path.env[dpl + k[len(spl):]] = path.env[k]
+                    elif k == "discr(" + spl + ")":
+                        path.env["discr(" + dpl + ")"] = path.env[k]
+                    elif k.startswith("((" + spl + " as "):
+                        path.env["((" + dpl + " as " + k[len("((" + spl + " as "):]] = path.env[k]
             return self.operand(path, rhs)
+        m = re.match(r"(Result::<(.*)>::(Ok|Err)|Option::<(.*)>::Some)\((.*)\)$", rhs)
+        if m:
+            dpl = self.place_of(dest)[0]
+            if m.group(3):
+                tys = split_top(m.group(2))
+                variant = m.group(3)
+                path.env["discr(" + dpl + ")"] = z3.BitVecVal(0 if variant == "Ok" else 1, 64)
+                ty = tys[0].strip() if variant == "Ok" else (tys[1].strip() if len(tys) > 1 else "")
+            else:
+                variant = "Some"
+                path.env["discr(" + dpl + ")"] = z3.BitVecVal(1, 64)
+                ty = m.group(4).strip()
+            v = self.operand(path, m.group(5)) if ty_width(ty) else None
+            if v is not None:
+                path.env["((%s as %s).0: %s)" % (dpl, variant, ty)] = v
+            return "TUPLE"
+        m = re.match(r"(PtrMetadata|Len)\((.*)\)$", rhs)
+        if m:
+            pl, _ = self.place_of(re.sub(r"^(copy|move) ", "", m.group(2)))
+            key = "len(" + pl + ")"
+            if key not in path.env:
+                path.env[key] = self.fresh(key, "usize")
+            return path.env[key]
         m = re.match(r"discriminant\((.*)\)$", rhs)
         if m:
             pl, _ = self.place_of(m.group(1))
@@ -611,6 +639,7 @@ class SymExec:
                     continue
                 val = self.rvalue(path, m.group(1), m.group(2))
                 if isinstance(val, str) and val == "TUPLE":
+                    path.events.append(("assign", bname, m.group(1).strip(), m.group(2).strip(), None))
                     continue
                 self.assign(path, m.group(1), val)
                 path.events.append(("assign", bname, m.group(1).strip(), m.group(2).strip(), val))
@@ -686,6 +715,25 @@ class SymExec:
 
     def builtin_model(self, path, t, args):
         """std integer helpers with exact bit-vector semantics."""
+        m = re.match(r"<(Result|Option)<(.*)> as Try>::branch$", t["func"])
+        if m and t["dest"] and len(t["args"]) == 1:
+            src = self.place_of(re.sub(r"^(move|copy) ", "", t["args"][0]))[0]
+            dpl = self.place_of(t["dest"])[0]
+            d = path.env.get("discr(" + src + ")")
+            ty = split_top(m.group(2))[0].strip()
+            if m.group(1) == "Result":
+                if d is not None:
+                    path.env["discr(" + dpl + ")"] = d
+                v = path.env.get("((%s as Ok).0: %s)" % (src, ty))
+            else:
+                if d is not None:
+                    path.env["discr(" + dpl + ")"] = z3.If(d == 1, z3.BitVecVal(0, 64), z3.BitVecVal(1, 64))
+                v = path.env.get("((%s as Some).0: %s)" % (src, ty))
+            if v is not None:
+                path.env["((%s as Continue).0: %s)" % (dpl, ty)] = v
+            if d is not None or v is not None:
+                return "HANDLED"
+            return None
         m = re.match(r"core::num::<impl (u8|u16|u32|u64|usize)>::(saturating_sub|saturating_add|wrapping_sub|wrapping_add|checked_sub|checked_add|min|max)$", t["func"])
         if not m or len(args) != 2 or args[0] is None or args[1] is None:
             return None
